@@ -10,6 +10,7 @@ import Resonate.Model.Json
 import Resonate.Model.Poll
 import Resonate.Model.Resolve
 import Resonate.Properties.C13
+import Resonate.Properties.C02
 open Lean
 namespace Resonate
 
@@ -17,6 +18,13 @@ structure DriverState where
   db : Db := {}
   sys : Option Sys := none
   poll : Poll.St := { max := 0 }
+  /-- history for the linearizability check (C02): database snapshots oldest first, tick times, per request
+      (request, index of the snapshot current at submission, number of ticks seen then, start tick), router answers -/
+  snaps : List Db := []
+  ticks : List Int := []
+  subs : List (String × Req × Nat × Nat) := []
+  started : List (String × Int) := []
+  routes : List (String × Cpl) := []
 
 def defsOf (d : String) : SqlDefs := if d == "pg" then Gen.Pg.defs else Gen.Sqlite.defs
 
@@ -45,7 +53,7 @@ def handleLine (st : DriverState) (line : String) : DriverState × Json :=
           let bg := (j.getObjValAs? Bool "bg").toOption.getD true
           return ({ env := defaultEnv cfg, g := defsOf dialect, bgEnabled := bg } : Sys) : Except String Sys) with
       | .error e => (st, Json.mkObj [("fatal", s!"sys_init: {e}")])
-      | .ok sys => ({ st with sys := some sys }, Json.mkObj [("ok", true)])
+      | .ok sys => ({ st with sys := some sys, snaps := [sys.db], ticks := [], subs := [], started := [], routes := [] }, Json.mkObj [("ok", true)])
     | .ok "submit" | .ok "tick" | .ok "exec" | .ok "complete" | .ok "crash" | .ok "shutdown" =>
       match st.sys with
       | none => (st, Json.mkObj [("fatal", "no system")])
@@ -76,11 +84,63 @@ def handleLine (st : DriverState) (line : String) : DriverState × Json :=
         | .error e => (st, Json.mkObj [("fatal", s!"{op}: {e}")])
         | .ok (.execStore items) =>
           let (sys', err) := sys.execStore items
-          ({ st with sys := some sys' }, Json.mkObj [("err", match err with | some e => Json.str (storeErrToString e) | none => Json.null), ("db", toJson sys'.db)])
+          -- every database state the batch passed through (after each of its transactions) is an instant of the history
+          let txs := C06.txsOf sys items
+          let mids : List Db := if err.isSome then [] else
+            (List.range txs.length).filterMap fun k =>
+              match sys.db.execTxs sys.g (txs.take (k + 1)) with
+              | .ok (dbk, _) => some dbk
+              | .error _ => none
+          ({ st with sys := some sys', snaps := st.snaps ++ mids ++ [sys'.db] }, Json.mkObj [("err", match err with | some e => Json.str (storeErrToString e) | none => Json.null), ("db", toJson sys'.db)])
         | .ok ch =>
           let (sys', evs) := sys.step ch
-          ({ st with sys := some sys' },
-           Json.mkObj [("events", toJson (evs.map eventToJson)), ("halted", toJson sys'.halted),
+          -- history bookkeeping
+          let st1 : DriverState := match ch with
+            | .submit tid r => { st with subs := (tid, r, st.snaps.length - 1, st.ticks.length) :: st.subs }
+            | .tick t =>
+              let fresh := sys'.threads.filter fun th => th.isBg.isNone && !(st.started.any fun x => x.1 == th.tid)
+              { st with ticks := st.ticks ++ [t], started := fresh.map (fun th => (th.tid, t)) ++ st.started }
+            | .complete id c => { st with routes := (id.tid, c) :: st.routes }
+            | .crash => { st with subs := [], started := [], routes := [] }
+            | _ => st
+          -- C02: every answer is the sequential server's answer on some database of the request's window
+          let linBad : List String := evs.filterMap fun e =>
+            match e with
+            | .respond tid r =>
+              match st1.subs.find? (fun x => x.1 == tid) with
+              | none => none
+              | some (_, rq, snapIdx, tickIdx) =>
+                match r with
+                | .error _ => none          -- platform errors (queue full, store failure) are not answers of the specification
+                | _ =>
+                  let t0s : List Int := match st1.started.find? (fun x => x.1 == tid) with
+                    | some (_, t0) => [t0]
+                    | none => st1.ticks.drop tickIdx
+                  let route : Promise → Cpl := fun _ => match st1.routes.find? (fun x => x.1 == tid) with
+                    | some (_, c) => c
+                    | none => .err
+                  let window := st1.snaps.drop snapIdx
+                  let times := st1.ticks.drop tickIdx
+                  -- a claim reads the attached promises in a LATER transaction than the claim itself: status, task and links are
+                  -- compared at the linearization instant, each attached promise must be a state that promise had inside the window
+                  let strip : Resp → Resp
+                    | .claim s tk _ _ rh lh => .claim s tk none none rh lh
+                    | x => x
+                  let want := respToJson (strip r)
+                  let ok := window.any fun db => t0s.any fun t0 => times.any fun t =>
+                    match (C02.seqRun sys.g route (rq.body sys.env t0) t 12 db ((rq.body sys.env t0) t)).2 with
+                    | some r' => respToJson (strip r') == want
+                    | none => false
+                  let attachedOk : Option Promise → Bool
+                    | none => true
+                    | some p => window.any fun db => db.promises.any fun row => toJson (SqlSpec.promiseSelect_proj row).toPromise == toJson p
+                  let okAttached := match r with
+                    | .claim _ _ rp lp _ _ => attachedOk rp && attachedOk lp
+                    | _ => true
+                  if ok && okAttached then none else some tid
+            | _ => none
+          ({ st1 with sys := some sys' },
+           Json.mkObj [("events", toJson (evs.map eventToJson)), ("halted", toJson sys'.halted), ("lin_violation", toJson linBad),
                        ("wf_violation", toJson (evs.filterMap fun e => match e with
                           | .dispatch id (.store tx) => if wfTx tx then none else some (id.tid ++ "#" ++ toString id.seq)
                           | _ => none)),
